@@ -29,7 +29,7 @@ UNARY = [
     "t[0]", "t[-1]", "t[..., 0]", "t[:, 0]", "t[1:]", "t[:, 1:]", "t[::2]", "t[..., ::2]", "t[..., -1]", "t[t > 0]", "(t > 0).sum()", "(t > 0).float().mean()", "t.clamp(min=0)", "torch.clamp(t, -1, 1)", "t.clamp(max=1)",
     "t * 2 + 1", "t ** 2", "-t", "t % 2", "t // 2", "torch.remainder(t, 3)", "torch.sign(t)", "t.sign()", "(t > 0) & (t < 2)", "(t > 0) | (t < -1)", "~(t > 0)", "torch.where(t > 0, t, -t)", "torch.where(t > 0, 1.0, 0.0)",
     "t.repeat(2, *[1] * (t.dim() - 1))", "torch.stack([t, t])", "torch.stack([t, t], dim=-1)", "torch.cat([t, t])", "torch.cat([t, t], dim=-1)", "t.repeat_interleave(2, dim={d})", "torch.repeat_interleave(t, 2, dim={d})",
-    "t.index_select({d}, torch.tensor([0]))", "t.index_select(0, torch.tensor([1, 0, 1]))", "torch.index_select(t, {d}, torch.tensor([0, 0]))", "t.index_select(-1, torch.tensor([1, 0]))", "torch.full_like(t, 0.5)", "torch.full_like(t.long(), 0.5)", "torch.full_like(t.long(), -1.7)", "torch.full_like(t > 0, 2)", "torch.full_like(t > 0, 0.0)", "torch.full_like(t.long(), 2.5, dtype=torch.float32)", "torch.full_like(t, -1)", "torch.where(t > 0, torch.full_like(t.long(), 0.5), t.long()).float()", "t.cumsum(dim={d})", "torch.cumsum(t, dim={d})", "torch.cumsum(t, {d})", "torch.cumsum(t, dim=-1)", "torch.cumprod(t, dim={d})", "t.cumprod({d})", "t.cumprod(dim=-1)", "t.prod()", "t[..., 1::2]", "t[..., ::2]", "t[..., 1:]", "t[..., :-1]", "t[..., 0:2:1]", "torch.atleast_2d(t)", "torch.atleast_3d(t)", "torch.atleast_1d(t)", "torch.atleast_2d(t.flatten())", "torch.atleast_3d(t.flatten())", "torch.atleast_3d(t.flatten()[0])", "torch.atleast_2d(t.flatten()[0])", "torch.atleast_3d(t.reshape(t.shape[0], -1))", "torch.kron(t, t)", "torch.kron(t, t[:1])", "torch.kron(t[:, :1], t)", "t.prod(dim={d})", "t.prod(dim={d}, keepdim=True)", "torch.prod(t, {d})", "t[[0, 1]].prod(dim=0)", "t[[1]].prod(dim=0)", "t.nonzero()", "torch.nonzero(t > 0)", "t.shape", "t.shape[0]", "t.size(-1)", "t.size()", "len(t)", "t.tolist()",
+    "t.index_select({d}, torch.tensor([0]))", "t.index_select(0, torch.tensor([1, 0, 1]))", "torch.index_select(t, {d}, torch.tensor([0, 0]))", "t.index_select(-1, torch.tensor([1, 0]))", "torch.count_nonzero(t)", "torch.count_nonzero(t, dim={d})", "t.count_nonzero()", "t.count_nonzero(dim={d})", "torch.count_nonzero(t - t)", "torch.count_nonzero(torch.sum(t, dim=-1))", "torch.full_like(t, 0.5)", "torch.full_like(t.long(), 0.5)", "torch.full_like(t.long(), -1.7)", "torch.full_like(t > 0, 2)", "torch.full_like(t > 0, 0.0)", "torch.full_like(t.long(), 2.5, dtype=torch.float32)", "torch.full_like(t, -1)", "torch.where(t > 0, torch.full_like(t.long(), 0.5), t.long()).float()", "t.cumsum(dim={d})", "torch.cumsum(t, dim={d})", "torch.cumsum(t, {d})", "torch.cumsum(t, dim=-1)", "torch.cumprod(t, dim={d})", "t.cumprod({d})", "t.cumprod(dim=-1)", "t.prod()", "t[..., 1::2]", "t[..., ::2]", "t[..., 1:]", "t[..., :-1]", "t[..., 0:2:1]", "torch.atleast_2d(t)", "torch.atleast_3d(t)", "torch.atleast_1d(t)", "torch.atleast_2d(t.flatten())", "torch.atleast_3d(t.flatten())", "torch.atleast_3d(t.flatten()[0])", "torch.atleast_2d(t.flatten()[0])", "torch.atleast_3d(t.reshape(t.shape[0], -1))", "torch.kron(t, t)", "torch.kron(t, t[:1])", "torch.kron(t[:, :1], t)", "t.prod(dim={d})", "t.prod(dim={d}, keepdim=True)", "torch.prod(t, {d})", "t[[0, 1]].prod(dim=0)", "t[[1]].prod(dim=0)", "t.nonzero()", "torch.nonzero(t > 0)", "t.shape", "t.shape[0]", "t.size(-1)", "t.size()", "len(t)", "t.tolist()",
     "t.view(-1)", "t.reshape(t.shape[0], -1)", "t.reshape(-1, t.shape[-1])", "t.unsqueeze(0).expand(2, *t.shape)", "t.bool()", "t.bool().any(dim={d})", "(t != 0).long()", "t.float().floor()", "torch.floor(t / 2)", "torch.round(t / 2)",
     "t.sort(dim={d})[0]", "torch.sort(t, dim={d})[1]", "t.topk(1, dim={d})[1]", "torch.argsort(t, dim={d})", "t.roll(1, {d})", "torch.roll(t, 1, dims={d})", "t.flatten().unique()", "torch.count_nonzero(t)",
     "t.abs().max(dim={d}, keepdim=True)[0]", "torch.maximum(t, -t)", "torch.minimum(t, -t)", "t.masked_fill(t > 0, 9)", "torch.zeros_like(t)", "torch.ones_like(t) * 3", "t.new_zeros(2)", "torch.full_like(t, 2)",
